@@ -18,7 +18,7 @@ From FJ Require Import Lib.Base.
    The code modelled is the tree AFTER the fix commits 519ec12 (get_minimized_expr wraps arithmetic errors: F7),
    b770ddf (flip / jump / wflip words are range-checked when the op is inserted: F8), 0ef0f9a (a pad that runs past
    2^w bits is refused: F9, partly), 3bd0fc0 (Writer.add_data / add_segment validate what they are given), 435c753
-   (get_wflip_spot skips the op that holds the input bit), 825c6f7 + 7a19742 (a negative reserve is refused) and 07c8d15 (a source
+   (get_wflip_spot skips the op that holds the input bit), 825c6f7 + 7a19742 (a negative reserve is refused), 523f875 + d8bb7f7 (diagnostics print big integers in hex) and 07c8d15 (a source
    label spelled like the internal "_.wflip_area_start_<i>" is a 'declared twice' error: N2).
 
    What is abstracted (and why it does not matter for the classification of failures):
@@ -28,7 +28,7 @@ From FJ Require Import Lib.Base.
    * macro-start labels ("<path>---:start:") are not inserted: their names contain ':' so no source label can collide;
    * the interpreter's resources are parameters of `config`: c_exprlim (deepest Expr tree the recursive traversals survive),
      c_replim (largest rep count that terminates within the watchdog), c_padlim (largest pad count that can be materialised),
-     c_bitlim (largest shift / power result that can be allocated); str_digits is CPython's int->str limit (4300 digits).
+     c_bitlim (largest shift / power result that can be allocated).
    No proofs in this file (Proofs/AsmErrorsProps.v). *)
 From FJ Require Import Model.Ast.
 From FJ Require Model.Expr.
@@ -122,15 +122,8 @@ Fixpoint expr_depth (e : expr) : nat :=
   | _ => O
   end.
 
-(* str(int) refuses integers of more than 4300 decimal digits (sys.get_int_max_str_digits) with ValueError *)
-Definition str_digits : Z := 10 ^ 4300.
-Definition unprintable (z : Z) : bool := str_digits <=? Z.abs z.
-Fixpoint has_unprintable (e : expr) : bool :=
-  match e with
-  | EInt z => unprintable z
-  | ELbl _ => false
-  | EOp _ args => (fix any (l : list expr) : bool := match l with [] => false | a :: t => has_unprintable a || any t end) args
-  end.
+(* str(int) refuses integers of more than 4300 decimal digits (ValueError).  Since 523f875 / d8bb7f7 every diagnostic
+   of the pipeline formats its integers through int_to_str / hex, which cannot raise: no message-building exit is left. *)
 
 (* get_minimized_expr(op, params): `except FlipJumpExprException: raise`, `except Exception as e: raise
    FlipJumpExprException(f'... bad math operation ({op}): {str(Expr((op, params)))}.')` (fix 519ec12) *)
@@ -140,7 +133,7 @@ Definition get_minimized_expr (cfg : config) (o : opname) (params : list expr) :
     | Ok z => Ok (EInt z)
     | LibError k => LibError k
     | RawExn Hang => RawExn Hang
-    | RawExn _ => if has_unprintable (EOp o params) then RawExn ValueError else LibError KBadMath
+    | RawExn _ => LibError KBadMath
     end
   else Ok (EOp o params).
 
@@ -165,8 +158,8 @@ Fixpoint dict_set {A} (d : dict A) (k : string) (v : A) : dict A :=
 Definition dict_mem {A} (d : dict A) (k : string) : bool := match dict_get d k with Some _ => true | None => false end.
 
 (* Expr.eval_new(params_dict), the recursion itself.  `except Exception` around the operator: every exception it raises
-   (MemoryError included) becomes FlipJumpExprException("... bad math operation (op): {str(self)}.") - but str(self) raises
-   ValueError when the expression holds an unprintable integer, and a computation that never returns stays that way. *)
+   (MemoryError included) becomes FlipJumpExprException("... bad math operation (op): {str(self)}."); a computation that
+   never returns stays that way. *)
 Fixpoint eval_new_rec (cfg : config) (sg : dict expr) (e : expr) : res expr :=
   match e with
   | EInt _ => Ok e
@@ -178,7 +171,7 @@ Fixpoint eval_new_rec (cfg : config) (sg : dict expr) (e : expr) : res expr :=
       match op_apply cfg o (ints_of args') with
       | Ok z => Ok (EInt z)
       | RawExn Hang => RawExn Hang
-      | _ => if has_unprintable e then RawExn ValueError else LibError KBadMath
+      | _ => LibError KBadMath
       end
     else Ok (EOp o args')
   end.
@@ -202,7 +195,7 @@ Fixpoint exact_eval_rec (cfg : config) (lb : dict Z) (e : expr) : res Z :=
     | Ok z => Ok z
     | LibError k => LibError k
     | RawExn Hang => RawExn Hang
-    | RawExn _ => if has_unprintable e then RawExn ValueError else LibError KBadMath
+    | RawExn _ => LibError KBadMath
     end
   end.
 
@@ -307,10 +300,9 @@ Definition insert_reserve (st : pstate) (size : Z) : pstate :=
 
 Definition align_current_address (cfg : config) (st : pstate) (n : Z) : res pstate :=
   let dw := 2 * c_w cfg in
-  if negb (p_addr st mod dw =? 0) then (if unprintable (p_addr st) then RawExn ValueError else LibError KPadUnaligned)
+  if negb (p_addr st mod dw =? 0) then LibError KPadUnaligned
   else let k := ((- p_addr st) / dw) mod n in
-       if 2 ^ c_w cfg <? p_addr st + k * dw then        (* fix 0ef0f9a; the message prints n, the address and k in decimal *)
-         (if unprintable n || unprintable (p_addr st) || unprintable k then RawExn ValueError else LibError KPadTooBig)
+       if 2 ^ c_w cfg <? p_addr st + k * dw then LibError KPadTooBig        (* fix 0ef0f9a *)
        else Ok (mkp (p_addr st + k * dw) (p_labels st) (LPadding k :: p_ops st) (p_w0 st) (p_seg st)).
 
 Definition push_op (st : pstate) (a : Z) (o : lastop) : pstate :=
@@ -359,7 +351,7 @@ Definition resolve_op (rec : option callee_t) (sg : dict expr) (prefix : string)
     match dict_get sg name with                      (* Label.eval_name *)
     | None => insert_label st name
     | Some (ELbl s) => insert_label st s
-    | Some v => if has_unprintable v then RawExn ValueError else LibError KBadLabelSwap
+    | Some _ => LibError KBadLabelSwap
     end
   | SFlipJump f j _ =>
     let a := p_addr st + 2 * c_w cfg in
@@ -373,12 +365,8 @@ Definition resolve_op (rec : option callee_t) (sg : dict expr) (prefix : string)
     Ok (push_op st a (LWordFlip x' v' r'))
   | SPad e _ =>
     do e' <- eval_new cfg sg e;
-    (* "Can't evaluate how much to pad in 'pad {op.ops_alignment}'" prints the expression *)
-    do n <- match exact_eval cfg (p_labels st) e' with
-            | LibError _ => if has_unprintable e' then RawExn ValueError else LibError KPadEval
-            | r => r
-            end;
-    if n <=? 0 then (if unprintable n then RawExn ValueError else LibError KPadNonPositive)
+    do n <- relabel (exact_eval cfg (p_labels st) e') KPadEval;
+    if n <=? 0 then LibError KPadNonPositive
     else align_current_address cfg st n
   | SSegment e _ =>
     do e' <- eval_new cfg sg e;
@@ -488,7 +476,7 @@ Definition in_memory (cfg : config) (a : Z) : bool := word_ok cfg a.
 (* Writer.add_data: `for word in data: if word < 0 or word >= (1 << w): raise FlipJumpWriteFjmException(f"data word {word} ...")` *)
 Definition writer_add_data (cfg : config) (wr : wstate) (words : list Z) (n : Z) : res wstate :=
   match find (fun x => negb (word_ok cfg x)) words with
-  | Some bad => if unprintable bad then RawExn ValueError else LibError KWriterData
+  | Some _ => LibError KWriterData
   | None => Ok (mkw (w_segs wr) (w_dlen wr + n) (words ++ w_data wr))
   end.
 
@@ -645,9 +633,8 @@ Definition insert_reserve_bits (cfg : config) (st : bstate) (after : Z) : res bs
   Ok (mkb after (b_nextw st) (if snd r then 0 else b_nfj st) (b_nwf st) [] (b_dict st)
           (if snd r then [] else b_fjw st) (b_wfw st) (fst r)).
 
-(* f"{e} in op {op}": str(op) prints every expression of the op *)
-Definition op_message (k : libkind) (es : list expr) : res bstate :=
-  if existsb has_unprintable es then RawExn ValueError else LibError k.
+(* f"{e} in op {op}": str(op) prints every expression of the op (through int_to_str: it cannot raise) *)
+Definition op_message (k : libkind) (es : list expr) : res bstate := LibError k.
 
 Definition in_op {A} (r : res A) (es : list expr) (f : A -> res bstate) : res bstate :=
   match r with
@@ -736,10 +723,6 @@ Definition expr_depth_ok (cfg : config) (t : macro_dict) : bool :=
 
 (* domain: parse_macro_tree always returns a dictionary that holds the main macro ("", 0) *)
 Definition has_main (t : macro_dict) : bool := match find_macro t main_macro_name with Some _ => true | None => false end.
-
-(* a diagnostic that has to print an integer of more than 4300 digits (ValueError inside the handler) *)
-Definition diagnostics_printable (cfg : config) (t : macro_dict) : bool :=
-  match o_verdict (assemble_model cfg t) with VCatchAll ValueError => false | _ => true end.
 
 (* the property on an outcome *)
 Definition specific (o : outcome) : bool := match o_verdict o with VOk | VLib _ => true | _ => false end.
